@@ -313,6 +313,9 @@ Definition set_last_rcpt (ss : segstat) (uid : Z) : segstat :=
 Definition put_delivery (d : dstore_t) (now : Q) (mid : Z) (m : smsg) (eid : Z) : dstore_t :=
   dset d mid {| e_at := now; e_msg := m; e_id := eid |}.
 
+(* the stored SubmitSm is a part of a segmented message: 0 < total_segments <= 255 *)
+Definition is_segment (m : smsg) : bool := (0 <? snd (sm_sar m)) && (snd (sm_sar m) <=? 255).
+
 (* get_delivery(receipt), without the sweep *)
 Definition get_delivery (c : corr) (d : dstore_t) (r : receipt) : corr * dstore_t * option smsg :=
   match dget (rc_id r) d with
@@ -320,7 +323,7 @@ Definition get_delivery (c : corr) (d : dstore_t) (r : receipt) : corr * dstore_
   | Some e =>
     let m := e_msg e in
     let d' := ddel (rc_id r) d in
-    match dget (sm_seq m) (c_seg c) with
+    match (if is_segment m then dget (sm_seq m) (c_seg c) else None) with
     | Some (ref, sseq) =>
       match dget ref (c_stat c) with
       | Some ss =>
